@@ -189,12 +189,10 @@ func VerifC12RoachStream(opt AbacoUnwrapOptions, data [][]uint16, pktSamples int
 		}
 		return pkt
 	}
-	// the packet that Sample() would consume: its data are not used, only nchan and the sample number
-	sampled := false
-	for attempt := 0; attempt < 5 && !sampled; attempt++ {
-		if _, err = sender.Write(mkPacket(n, 1, 0)); err != nil {
-			continue
-		}
+	// the packet that Sample() would consume: its data are not used, only nchan and the sample number.
+	// One attempt only: after a failure a stale packet could still sit in the socket and would later be
+	// taken for data, so the caller starts over with a fresh device instead.
+	if _, err = sender.Write(mkPacket(n, 1, 0)); err == nil {
 		err = func() (e error) {
 			defer func() {
 				if r := recover(); r != nil {
@@ -203,15 +201,15 @@ func VerifC12RoachStream(opt AbacoUnwrapOptions, data [][]uint16, pktSamples int
 			}()
 			return dev.samplePacket()
 		}()
-		sampled = err == nil && len(dev.unwrap) == nchan
 	}
-	if !sampled {
+	if err == nil && len(dev.unwrap) != nchan {
+		err = fmt.Errorf("verif: samplePacket built %d unwrappers, want %d", len(dev.unwrap), nchan)
+	}
+	if err != nil {
 		dev.conn.Close()
-		if err == nil {
-			err = fmt.Errorf("verif: samplePacket built %d unwrappers, want %d", len(dev.unwrap), nchan)
-		}
 		return nil, false, err
 	}
+	sampnum := uint64(dev.nextS)
 	nextBlock := make(chan *dataBlock)
 	go dev.readPackets(nextBlock)
 	stop := func() {
@@ -224,7 +222,6 @@ func VerifC12RoachStream(opt AbacoUnwrapOptions, data [][]uint16, pktSamples int
 			}
 		}()
 	}
-	sampnum := uint64(dev.nextS)
 	for first := 0; first < n; first += pktSamples {
 		m := pktSamples
 		if m > n-first {
